@@ -9,6 +9,7 @@ pub mod c09;
 pub mod c10;
 pub mod c11;
 pub mod c12;
+pub mod c13;
 pub mod c19;
 
 use crate::engine::Runner;
@@ -28,6 +29,7 @@ pub fn run(id: &str, r: &mut Runner) {
         "C10" => c10::run(r),
         "C11" => c11::run(r),
         "C12" => c12::run(r),
+        "C13" => c13::run(r),
         "C19" => c19::run(r),
         _ => {
             println!("HARNESS-ERROR property {id} has no check yet");
